@@ -35,7 +35,8 @@ THEOREMS = [NS + t for t in (
     'C03_cell_roundtrip_partial', 'C03_code_roundtrip', 'C03_text_eq_counterexample', 'C03_eq_hypothesis_forced',
     'C03_serialize_content', 'C03_serialize_sorted',
     'C03_order_independent_map', 'C03_order_independent_bytes', 'C03_order_counterexample',
-    'C03_save_twice_identical', 'C03_pickle_not_rewritten', 'C03_save_twice_asWritten_counterexample',
+    'C03_save_twice_identical', 'C03_pickle_not_rewritten', 'C03_pickle_not_rewritten_digest', 'C03_pickle_fresh_step',
+    'C03_pickle_fresh', 'C03_weak_digest_counterexample', 'C03_save_twice_asWritten_counterexample',
     'C03_idempotent_map', 'C03_idempotent_bytes', 'C03_idempotent_counterexample',
     'C03_carried', 'C03_resave_settings', 'C03_resave_identical',
     'C03_loaded_preserves', 'C03_loaded_inv', 'C03_observational', 'C03_observational_outputs', 'C03_alike',
@@ -68,10 +69,13 @@ ASSUMPTIONS = [
     'the python code and the build order of the original model are inputs of the persistence model (read from the '
     'original compiler), not something it predicts',
 ]
-TRUSTED = ['modelled, not verified: ruamel.yaml, json, pickle/marshal codecs (contract + hostile pool), openpyxl, '
+TRUSTED = ['md5 (hashlib) of the WHOLE file as the digest of to_file/hash_matches: assumed contract DigestFaithful '
+           '(equal digest => equal text) of theorems C03_pickle_fresh*; a digest outside it is C03_weak_digest_counterexample',
+           'modelled, not verified: ruamel.yaml, json, pickle/marshal codecs (contract + hostile pool), openpyxl, '
            'networkx; the engine model is the C01 one']
 REQUIRED_BUCKETS = ['yml:same', 'json:same', 'pkl:same', 'yml:thread', 'yml:proc', 'json:proc', 'pkl:proc',
-                    'pkl:thread', 'json:thread', 'pool', 'cse', 'iter-fixture']
+                    'pkl:thread', 'json:thread', 'pool', 'cse', 'iter-fixture', 'hash:none', 'hash:before-save',
+                    'hash:after-save', 'hash:after-load', 'pk:small', 'pk:large']
 EXHAUSTIVE = False
 EXPLANATION = ('theorems: persistence model + C01 engine, all cell maps/codecs/histories; correspondence: file content, '
                'save-twice, re-save and post-load history of the real ExcelCompiler vs the compiled model; '
@@ -283,7 +287,150 @@ def impl(case):
     key = _key(case)
     _INFO.pop(key, None)
     with tempfile.TemporaryDirectory(prefix='c03-') as tmp:
+        if case.get('kind') == 'hash':
+            return _impl_hash(case, key, tmp)
+        if case.get('kind') == 'pk':
+            return _impl_pk(case, key, tmp)
         return _impl(case, key, tmp)
+
+
+# ---------------------------------------------------------------------------------------------------------------
+# the source-hash clause: a workbook file that is (or is not) modified between compile, save, load and re-save
+
+def _doc_of(path):
+    from ruamel.yaml import YAML
+    with open(path, 'r') as f:
+        return YAML().load(f)
+
+
+def _impl_hash(case, key, tmp):
+    from pycel import ExcelCompiler
+    from harness import xlsxwriter_min as xw
+    nodes, fmt, edit = case['nodes'], case['fmt'], case['edit']
+    cells = _cells_of(case)
+    path = os.path.join(tmp, 'book.xlsx')
+    xw.write_xlsx(path, cells, xw.stored_results(cells, c01.build_compiler(cells, None)), None)
+    comp = ExcelCompiler(filename=path)
+    h0 = comp._excel_file_md5_digest
+    ids = {h0: '0', None: '-'}
+
+    def hid(h):
+        return ids.setdefault(h, str(len(ids) - 1))
+
+    def modify():
+        changed = dict(cells)
+        first = next(a for a, v in cells.items() if not (isinstance(v, str) and v.startswith('=')))
+        changed[first] = 987654
+        xw.write_xlsx(path, changed, xw.stored_results(changed, c01.build_compiler(changed, None)), None)
+
+    def current():
+        return hid(ExcelCompiler._compute_file_md5_digest(path))
+
+    _run_ops(comp, nodes, case['pre'])
+    if case.get('extra') is not None:
+        comp.extra_data = json.loads(json.dumps(case['extra']))
+    info = {'kind': 'hash', 'fails': []}
+    _INFO[key] = info
+    if edit == 'before-save':
+        modify()
+    base = os.path.join(tmp, 'model')
+    if fmt == 'pkl':
+        text, target, load, kw = base + '.yml', base, base + '.pkl', {'file_types': ('pkl', 'yml')}
+    else:
+        text = target = load = f'{base}.{fmt}'
+        kw = {}
+    comp.to_file(target, **kw)
+    b1 = open(text, 'rb').read()
+    f1 = hid(_doc_of(text)['excel_hash'])
+    comp.to_file(target, **kw)
+    if open(text, 'rb').read() != b1:
+        info['fails'].append('saving the unchanged model a second time changed the text file')
+    expect_orig = current() == '0'
+    if bool(comp.hash_matches) != expect_orig:
+        info['fails'].append(f'original model: hash_matches is {comp.hash_matches} although the workbook file is '
+                             f'{"unchanged" if expect_orig else "modified"} since it was compiled')
+    if edit == 'after-save':
+        modify()
+    loaded = ExcelCompiler.from_file(load)
+    cur1 = current()
+    hm = [bool(loaded.hash_matches)]
+    if edit == 'after-load':
+        modify()
+    cur2 = current()
+    hm.append(bool(loaded.hash_matches))
+    resave = os.path.join(tmp, 'again.' + ('yml' if fmt == 'pkl' else fmt))
+    loaded.to_file(resave)
+    f2 = hid(_doc_of(resave)['excel_hash'])
+    if open(resave, 'rb').read() != b1:
+        info['fails'].append('saving the loaded model wrote a different text file (excel_hash '
+                             f'{_doc_of(text)["excel_hash"]} -> {_doc_of(resave)["excel_hash"]})')
+    h3 = hid(ExcelCompiler.from_file(resave)._excel_file_md5_digest)
+    if loaded.filename != comp.filename:
+        info['fails'].append('filename did not survive')
+    info['curs'] = [cur1, cur2]
+    return f'file:{f1};file2:{f2};hash3:{h3};hm:' + ''.join('1' if b else '0' for b in hm)
+
+
+# ---------------------------------------------------------------------------------------------------------------
+# "pickle only rewritten when text changed" as a history: to_file (pkl + text), set_value, to_file, from_file of every
+# extension and of the bare name
+
+def _pk_cells(case):
+    n, width = case['block']
+    cells = {'Sheet1!A1': 5, 'Sheet1!A2': '=A1&"|"&C1&"|"', 'Sheet1!C1': 5}
+    for r in range(1, n + 1):
+        cells[f'Sheet1!B{r}'] = chr(97 + r % 26) * width
+    cells[case['cell']] = c01._py(case['edit'][0])
+    return cells, n
+
+
+def _impl_pk(case, key, tmp):
+    import hashlib
+    from pycel import ExcelCompiler
+    from harness import pyc
+    cells, n = _pk_cells(case)
+    fmt2 = case['fmt']
+    comp = pyc.compiler_from(cells)
+    comp.evaluate('Sheet1!A2')
+    comp.evaluate(f'Sheet1!B1:B{n}')
+    watch = ['Sheet1!A1', 'Sheet1!C1', 'Sheet1!A2', 'Sheet1!B1', f'Sheet1!B{n}']
+    info = {'kind': 'pk', 'fails': []}
+    _INFO[key] = info
+    base = os.path.join(tmp, 'model')
+    text, pkl = f'{base}.{fmt2}', base + '.pkl'
+    texts, rw, prev = [], [], None
+    for step in ['save', 'edit', 'same']:
+        if step == 'edit':
+            comp.set_value(case['cell'], c01._py(case['edit'][1]))
+        comp.to_file(base, file_types=('pkl', fmt2))
+        texts.append(hashlib.sha256(open(text, 'rb').read()).hexdigest()[:16])
+        st = os.stat(pkl)
+        rw.append('0' if prev == (st.st_mtime_ns, st.st_ino) else '1')
+        prev = (st.st_mtime_ns, st.st_ino)
+    info['texts'] = texts
+    info['size'] = os.path.getsize(text)
+
+    def values(m):
+        out = []
+        for a in watch:
+            try:
+                out.append(core.enc(m.evaluate(a)))
+            except Exception as exc:   # noqa
+                out.append(core.canon_exc(exc))
+        return out
+    orig = values(comp)
+    got = {}
+    for name, p in (('pkl', pkl), (fmt2, text), ('bare name', base)):
+        try:
+            got[name] = values(ExcelCompiler.from_file(p))
+        except Exception as exc:   # noqa
+            got[name] = [core.canon_exc(exc)]
+        if got[name] != orig:
+            k = next((i for i, (x, y) in enumerate(zip(got[name], orig)) if x != y), 0)
+            info['fails'].append(f'after set_value({case["cell"]}, {core.show(case["edit"][1])}) and to_file, from_file('
+                                 f'{name}) gives {watch[k]} = {core.show(got[name][k])}, the original model '
+                                 f'{core.show(orig[k])} (text file {info["size"]} bytes)')
+    return 'rw:' + ''.join(rw) + ';fresh:%d' % (got['pkl'] == got[fmt2])
 
 
 def _impl(case, key, tmp):
@@ -390,6 +537,10 @@ def _key_toks(addr):
 
 def model_lines(case):
     info = _INFO.get(_key(case))
+    if case.get('kind') == 'hash':
+        return ['c03 hash 0 ' + ' '.join((info or {}).get('curs', ['!']))]
+    if case.get('kind') == 'pk':
+        return ['c03 pk ' + ' '.join((info or {}).get('texts', ['!']))]
     if not info or 'order' not in info:
         return ['c03 !noinfo']
     nodes = case['nodes']
@@ -503,6 +654,10 @@ def oracles(results):
         if info is None:
             yield r.case, f'implementation failed before the model was saved: {r.impl[:200]}'
             continue
+        if info.get('kind') in ('hash', 'pk'):
+            if info['fails']:
+                yield r.case, '; '.join(info['fails'][:3])
+            continue
         fails = _oracle_failures(r.case, info)
         if fails:
             yield r.case, '; '.join(list(dict.fromkeys(t for t, _ in fails))[:3])
@@ -571,7 +726,7 @@ def _diff_nodes(case, info, impl_out, model_out):
 
 def finding_key(case, impl_out, model_out):
     info = _INFO.get(_key(case))
-    if not info or 'consts' not in info:
+    if not info or 'consts' not in info or case.get('kind'):
         return None
     classes = [('text.eq-prefix', lambda s: s.startswith('='), ('yml', 'json', 'pkl')),
                ('yaml.nel', lambda s: '\x85' in s, ('yml', 'pkl')),
@@ -612,6 +767,10 @@ def finding_key(case, impl_out, model_out):
 # coverage
 
 def nontrivial(case):
+    if case.get('kind') == 'hash':
+        return case['edit'] != 'none'
+    if case.get('kind') == 'pk':
+        return True
     nodes = case['nodes']
     if any(n[0] == 'X' for n in nodes):
         return bool(case['pre'])
@@ -696,6 +855,8 @@ OPS = {'S': 3, 'E': 2, 'SR': 5, 'EL': 2}
 def supported(case):
     """the workbook and both histories only use node kinds and operations the model driver understands: a case that
     the (shared, evolving) c01 generators produce outside this whitelist is never emitted"""
+    if case.get('kind') == 'pk':
+        return True
     for n in case['nodes']:
         if n[0] not in ('I', 'F', 'R', 'X') or (n[0] == 'F' and n[2] not in KINDS):
             return False
@@ -824,9 +985,46 @@ def fixture_cases():
                    'tag': 'iter-fixture', 'fixture': 'tests/fixtures/circular.xlsx'}
 
 
+def hash_cases(rng, count):
+    """.xlsx-backed models; the workbook file is left alone / rewritten before the save / between save and load /
+    between load and re-save"""
+    k = 0
+    for _ in range(count):
+        for edit in ('none', 'before-save', 'after-save', 'after-load'):
+            for fmt in ('yml', 'json', 'pkl'):
+                k += 1
+                if count == 1 or k % 3 == rng.randrange(3) or edit == 'before-save':
+                    nodes = c01.gen_workbook(rng, free_ranges=False)
+                    case = {'kind': 'hash', 'tag': 'hash:' + edit, 'nodes': nodes, 'fmt': fmt, 'edit': edit,
+                            'pre': [['E', i] for i in range(len(nodes))], 'ops': [],
+                            'extra': _json_extra(rng) if rng.random() < 0.5 else None}
+                    if supported(case):
+                        yield case
+
+
+def pk_cases(thorough):
+    """small and large (text over 1 MiB / 3.5 MiB) models, the edited cell first / last in the file, edits that keep
+    the length of the text (1 -> 2, "a" -> "b") and that change it"""
+    edits = [[_tok(1), _tok(2)], [_tok('a'), _tok('b')], [_tok(1), _tok(10)], [_tok('a'), _tok('abc')]]
+    blocks = [((3, 10), 'small')]
+    big = [((40, 30000), 'large')] + ([((120, 30000), 'huge')] if thorough else [])
+    for (block, size) in blocks + big:
+        for cell in ('Sheet1!A1', 'Sheet1!C1'):
+            for e, edit in enumerate(edits):
+                for fmt in ('yml', 'json'):
+                    if size != 'small' and not thorough and not (cell == 'Sheet1!C1' and e == 0):
+                        continue        # quick: the multi-MiB model once per format (late cell, 1 -> 2)
+                    if size == 'huge' and not (e < 2 and fmt == 'yml'):
+                        continue
+                    yield {'kind': 'pk', 'tag': 'pk:' + size, 'block': list(block), 'cell': cell, 'edit': edit,
+                           'fmt': fmt, 'nodes': [], 'pre': [], 'ops': []}
+
+
 def cases(tier, rng):
     thorough = tier == 'thorough'
     yield from pool_cases()
+    yield from hash_cases(rng, 6 if thorough else 1)
+    yield from pk_cases(thorough)
     yield from cse_cases()
     yield from fixture_cases()
     n = 1800 if thorough else 240
